@@ -258,6 +258,10 @@ pub fn show<T: PurlShape>(p: &GenericPurl<T>) -> Out<String> {
 pub fn show_with_flags<T: PurlShape>(p: &GenericPurl<T>, plain: &str) -> Out<Option<(&'static str, String)>> {
     guard("format!(\"{:...}\", purl)", || {
         let n = plain.chars().count();
+        // (format widths above u16::MAX make `format!` itself panic: not the library's doing)
+        if n > 60_000 {
+            return None;
+        }
         let outs: [(&'static str, String, char); 7] = [
             ("{:<W}", format!("{:<w$}", p, w = n + 7), ' '),
             ("{:>W}", format!("{:>w$}", p, w = n + 7), ' '),
